@@ -524,7 +524,8 @@ def _c15_cases(tier, seed):
 
 
 StandIn("C15/_check_bounds", "C15",
-        "value lattice {-2,-1e-9,0,1e-9,.5,1,3,1e12}: exhaustive for 1 parameter (512), 400 seeded draws for 2-3 "
+        "value lattice {-2,-1e-9,0,1e-9,.5,1,3,1e12}: exhaustive for 1 parameter (512), one-decimal bounds in [-3, 3] with "
+        "precisions at / next to the range (the comparison is decided in doubles as written), 400 seeded draws for 2-3 "
         "parameters, 7 malformed outer shapes; oracle: executable sidecar contract",
         "exhaustive for 1 parameter, 6000 seeded draws for 2-3 parameters", _c15_cases,
         contract_check("black_it/search_space.py::SearchSpace._check_bounds"))
@@ -600,7 +601,8 @@ def _c15g_check(reg, case):
 
 
 StandIn("C15/grid", "C15",
-        "12 hand-picked (lower, upper, precision) incl. 0.3/0.1, 0.7/0.1, 0.03/0.01; 300 seeded specs of 1-4 parameters, "
+        "19 hand-picked (lower, upper, precision) incl. 0.3/0.1, 0.7/0.1, 0.03/0.01, upper bound exactly 0, negative ranges, "
+        "upper bounds near 1e6; 300 seeded specs of 1-4 parameters, "
         "scales 1e-3..1e4, up to 2000 steps, precision >= 1e-6; two many-parameter specs (size > 2^63); oracle: grid "
         "start/spacing/end-point rule in exact rationals, size == product",
         "5000 seeded specs", _c15g_cases, _c15g_check)
